@@ -1,12 +1,14 @@
 from .common import COMMON_TB
 
 CFG = dict(
-    coq="Properties/C02.v",
+    coq=["Properties/C02.v", "Properties/C02Compose.v"],
     areas=["c02"],
     level="proof",
     theorems_expected=["C02_xz", "C02_xz_encode_is_writer", "C02_xz_blocks_partition", "C02_xz_dict_ok", "C02_xz_dict_sound",
                        "C02_vli_roundtrip", "C02_xz_block_header", "C02_xz_empty_input_refuted", "C02_lzip", "C02_lzip_dict_ok",
-                       "C02_lzip_members_partition"],
+                       "C02_lzip_members_partition",
+                       "C02_lzma2_payload_larger_dict", "C02_lzma1_payload_larger_dict", "C02_xz_lzma2", "C02_xz_lzma2_delta",
+                       "C02_delta_filter_codec", "C02_lzip_lzma1", "C02_lzip_lzma1_c", "C02_l2_encoder_exists"],
     rule="cases = (check type {None, CRC32, CRC64, SHA-256}, block/member size {unset, = dict, < input, > input}, pre-filter chain "
          "{none, delta d, 2-3 deltas, each BCJ kind with/without start offset, BCJ+delta combinations}, LZMA options from encutil::gen_opts, "
          "LZIP dictionary sizes representable / not representable / below the minimum, data from 10 compressibility classes incl. empty, "
@@ -21,7 +23,9 @@ CFG = dict(
          "observation is not an empty result",
     trusted_base=COMMON_TB + ["liblzma 5.x (liblzma-sys 0.4.8, static) as reference decoder in the oracle",
                               "Codec/Lzma2Dec.v, Codec/Lzma1.v (LZMA2Reader / LZMAReader models, validated by the lzmadec area) as payload decoders of the executable reader models"],
-    assumptions=["payload codec round trip (C01/C16) and filter codec round trip (C11) are hypotheses of C02_xz / C02_lzip (universally quantified codecs); "
+    assumptions=["C02Compose.v closes the composition: C02_xz_lzma2 / C02_xz_lzma2_delta / C02_lzip_lzma1 have the LZMA2 / LZMA writer and reader models in place of the abstract payload codec "
+                 "(encoder = any choice function the writer model accepts; Delta instantiated, BCJ filter codecs still abstract); "
+                 "payload codec round trip (C01/C16) and filter codec round trip (C11) are hypotheses of C02_xz / C02_lzip (universally quantified codecs); "
                  "for BCJ filters the tie of the codec to the code is C11's check, and BCJWriter is exact only for one write() per block (C07, F9)",
                  "the theorems are about the whole-file reader function; its agreement with the call-by-call model on every read-size history is "
                  "checked by the correspondence run (cross-check in the driver), not proved",
